@@ -154,6 +154,28 @@ func c11Ops() []c11Op {
 			return hashFrame(g.Aggregate(qframe.Aggregation{Fn: "sum", Column: col(e, model.KInt, 0)}, qframe.Aggregation{Fn: "count", Column: col(e, model.KBool, 0)},
 				qframe.Aggregation{Fn: func(v []float64) float64 { yield(); return float64(len(v)) }, Column: col(e, model.KFloat, 0)}), false)
 		}},
+		{"GroupBy().Aggregate(in-place median)", func(e *c11Env, f qframe.QFrame, yield func()) uint64 {
+			// a median sorts the slice it is handed: legal, the slice is documented to be the callback's to use during the call
+			medI := func(v []int) int { yield(); sort.Ints(v); return v[len(v)/2] }
+			medF := func(v []float64) float64 {
+				sort.Slice(v, func(i, j int) bool { return v[i] < v[j] || (math.IsNaN(v[i]) && !math.IsNaN(v[j])) })
+				return float64(len(v))
+			}
+			all := f.GroupBy().Aggregate(qframe.Aggregation{Fn: medI, Column: col(e, model.KInt, 0)}, qframe.Aggregation{Fn: medF, Column: col(e, model.KFloat, 0)})
+			keyed := f.GroupBy(groupby.Columns(col(e, model.KBool, 0))).Aggregate(qframe.Aggregation{Fn: medI, Column: col(e, model.KInt, 1)})
+			return hashFrame(all, false) ^ hashFrame(keyed, false)*7
+		}},
+		{"Eval(private ctx + SetFunc)", func(e *c11Env, f qframe.QFrame, _ func()) uint64 {
+			// every call customises its own fresh context: contexts must not share state
+			ctx := eval.NewDefaultCtx()
+			_ = ctx.SetFunc("abs", func(x int) int { return x + 1000 })
+			_ = ctx.SetFunc("mine", func(x int) int { return -x })
+			ci := types.ColumnName(col(e, model.KInt, 0))
+			a := f.Eval("pa", qframe.Expr("abs", ci), eval.EvalContext(ctx))
+			b := f.Eval("pb", qframe.Expr("+", qframe.Expr("mine", ci), qframe.Expr("abs", ci)), eval.EvalContext(ctx))
+			d := f.Eval("pd", qframe.Expr("abs", ci)) // default context: the built-in abs
+			return hashFrame(a, true) ^ hashFrame(b, true)*3 ^ hashFrame(d, true)*5
+		}},
 		{"GroupBy.QFrames", func(e *c11Env, f qframe.QFrame, _ func()) uint64 {
 			g := f.GroupBy(groupby.Columns(col(e, model.KBool, 0), col(e, model.KEnum, 0)))
 			frames, err := g.QFrames()
